@@ -25,3 +25,10 @@ class Child(models.Model):
     k = models.IntegerField(null=True)
     label = models.CharField(max_length=20, null=True)
     owner = models.ForeignKey(Parent, null=True, on_delete=models.CASCADE, related_name="owned")
+
+
+class Note(models.Model):
+    """`notes` is a collection of the same name on two models (Parent.notes, Child.notes)."""
+    text = models.CharField(max_length=20, null=True)
+    parent = models.ForeignKey(Parent, null=True, on_delete=models.CASCADE, related_name="notes")
+    child = models.ForeignKey(Child, null=True, on_delete=models.CASCADE, related_name="notes")
